@@ -15,7 +15,31 @@ EXTENDS Numbers
 OutV == ValS("out")
 IsOut(v) == v.tag = "out"
 
+(* integer steps when an operand is a neighbour of a large power of two (d # 0): the big parts are added as   *)
+(* usual, the offsets (and an operand which is itself -1, 0 or 1) are added apart; the result must again be at *)
+(* most 1 away from an n * 2^e; multiplication by 0, 1 and -1 only; everything else is outside the claim       *)
+Big(v)   == [v EXCEPT !.d = 0]
+IsUnit(v) == v.d = 0 /\ NormV(v).e = 0 /\ Abs(NormV(v).n) <= 1          \* the integers -1, 0, 1
+UnitOf(v) == NormV(v).n
+WithD(v, dd) == IF Abs(dd) <= 1 THEN [NormV(v) EXCEPT !.d = dd] ELSE OutV
+AddOff(x, y) ==
+    IF IsUnit(y) THEN WithD(Big(x), x.d + UnitOf(y))
+    ELSE IF IsUnit(x) THEN WithD(Big(y), y.d + UnitOf(x))
+    ELSE IF CanAlign(Big(x), Big(y)) THEN (LET bsum == AddV(Big(x), Big(y)) IN IF bsum.n = 0 THEN Val(x.d + y.d, 0) ELSE WithD(bsum, x.d + y.d))
+    ELSE OutV
+NegOff(x) == ValD(-x.n, x.e, -x.d)
+IntStepOff(op, acc, x) ==
+    CASE op = "add"      -> AddOff(acc, x)
+      [] op = "subtract" -> AddOff(acc, NegOff(x))
+      [] op = "multiply" -> IF IsUnit(x) THEN (IF UnitOf(x) = 0 THEN Val(0, 0) ELSE IF UnitOf(x) = 1 THEN acc ELSE NegOff(acc))
+                            ELSE IF IsUnit(acc) THEN (IF UnitOf(acc) = 0 THEN Val(0, 0) ELSE IF UnitOf(acc) = 1 THEN x ELSE NegOff(x))
+                            ELSE OutV
+      [] OTHER -> OutV
+
 IntStep(op, acc, x) ==
+    IF acc.d # 0 \/ x.d # 0
+    THEN (LET r == IntStepOff(op, acc, x) IN IF IsOut(r) THEN r ELSE IF FitsI64(r) THEN r ELSE OutV)
+    ELSE
     LET r == CASE op = "add"      -> IF CanAlign(acc, x) THEN AddV(acc, x) ELSE OutV
                [] op = "subtract" -> IF CanAlign(acc, x) THEN SubV(acc, x) ELSE OutV
                [] op = "multiply" -> IF CanMul(acc, x) THEN MulV(acc, x) ELSE OutV
@@ -23,7 +47,7 @@ IntStep(op, acc, x) ==
     IN IF IsOut(r) THEN r ELSE IF FitsI64(r) THEN r ELSE OutV
 
 FltStep(op, acc, x) ==
-    IF ~Finite(acc) THEN OutV        \* inf/nan only modelled as a final result
+    IF ~Finite(acc) \/ acc.d # 0 \/ x.d # 0 THEN OutV        \* inf/nan only modelled as a final result; an integer that is no f64 is rounded: not modelled
     ELSE CASE op = "add"      -> IF CanAlign(acc, x) THEN AddV(acc, x) ELSE OutV
            [] op = "subtract" -> IF CanAlign(acc, x) THEN SubV(acc, x) ELSE OutV
            [] op = "multiply" -> IF CanMul(acc, x) THEN MulV(acc, x) ELSE OutV
